@@ -64,7 +64,7 @@ def _bad_reading(rng, di):
 class C06(Check):
     ID = 'C06'
     TRACE_FILES = ('secnode.py', 'protocol/dispatcher.py')
-    TIERS = {'quick': {'runs': 1500, 'wall': 80}, 'thorough': {'runs': 150000, 'wall': 800}}
+    TIERS = {'quick': {'runs': 5000, 'wall': 80}, 'thorough': {'runs': 150000, 'wall': 800}}
     RUN_WALL = 120
     MAX_VIRTUAL = 600
     RULE = ('case = node from generated module classes (1..3 modules, all datatypes, readonly/constant/export flags, '
